@@ -42,12 +42,40 @@ abbrev Hd (d : Nat) := Header.fromValue (3 * d + 1) d
 abbrev Pd (d : Nat) := ProtectedHeader.fromBstr (3 * d + 2) d
 abbrev Sd (d : Nat) := CoseSignature.fromValue (3 * d + 3) d
 
+/-- the decoded signature carries the protected bytes the built one emits, and the same signature bytes. -/
+def SigSame (s' s : CoseSignature) : Prop :=
+  ProtectedHeader.cborBstr s'.protected_ = ProtectedHeader.cborBstr s.protected_ ∧ s'.signature = s.signature
+
+def sigsSame : List CoseSignature → List CoseSignature → Prop
+  | [], [] => True
+  | s' :: ss', s :: ss => SigSame s' s ∧ sigsSame ss' ss
+  | _, _ => False
+
+theorem sigsSame_get : ∀ (ss' ss : List CoseSignature), sigsSame ss' ss → ∀ (i : Nat) (s : CoseSignature), ss[i]? = some s → ∃ s', ss'[i]? = some s' ∧ SigSame s' s := by
+  intro ss'
+  induction ss' with
+  | nil => intro ss h i s hs; cases ss <;> simp [sigsSame] at h; simp at hs
+  | cons a as ih =>
+    intro ss h i s hs
+    cases ss with
+    | nil => simp [sigsSame] at h
+    | cons c cs =>
+      simp only [sigsSame] at h
+      cases i with
+      | zero => simp at hs; subst hs; exact ⟨a, by simp, h.1⟩
+      | succ j => simp at hs ⊢; exact ih cs h.2 j s hs
+
+theorem cborBstr_of_orig (p : ProtectedHeader) (b : Bytes) (h : p.originalData = some b) : ProtectedHeader.cborBstr p = .ok (.bytes b) := by
+  cases p with
+  | mk o hd => simp only [ProtectedHeader.originalData] at h; subst h; rfl
+
 def HdrRT (d : Nat) : Prop := ∀ h, Header.WF d h → ∃ x h', Header.toValue h = .ok x ∧ Hd d x = .ok h' ∧ Header.erase h' = Header.erase h
 def PhRT (d : Nat) : Prop := ∀ p, ProtectedHeader.WF d p →
   ∃ b p', ProtectedHeader.cborBstr p = .ok (.bytes b) ∧ Pd d (.bytes b) = .ok p' ∧ ProtectedHeader.erase p' = ProtectedHeader.erase p ∧
     p'.originalData = some b
 def SigRT (d : Nat) : Prop := ∀ s, CoseSignature.WF d s →
-  ∃ b tl s', CoseSignature.toValue s = .ok (.array (.bytes b :: tl)) ∧ Sd d (.array (.bytes b :: tl)) = .ok s' ∧ CoseSignature.erase s' = CoseSignature.erase s
+  ∃ b tl s', CoseSignature.toValue s = .ok (.array (.bytes b :: tl)) ∧ Sd d (.array (.bytes b :: tl)) = .ok s' ∧ CoseSignature.erase s' = CoseSignature.erase s ∧
+    SigSame s' s
 
 theorem enc_ne_nil (v : Value) : enc v ≠ [] := by
   have := nsize_le v
@@ -95,9 +123,10 @@ theorem sig_rt (d : Nat) (hH : HdrRT d) (hP : PhRT d) : SigRT d := by
   cases s with
   | mk p u sg =>
     simp only [CoseSignature.WF] at hs
-    obtain ⟨b, p', h1, h2, h3, _⟩ := hP p hs.1
+    obtain ⟨b, p', h1, h2, h3, h4⟩ := hP p hs.1
     obtain ⟨x, u', g1, g2, g3⟩ := hH u hs.2
-    refine ⟨b, [x, .bytes sg], .mk p' u' sg, by simp [CoseSignature.toValue, h1, g1], ?_, by simp [CoseSignature.erase, h3, g3]⟩
+    refine ⟨b, [x, .bytes sg], .mk p' u' sg, by simp [CoseSignature.toValue, h1, g1], ?_, by simp [CoseSignature.erase, h3, g3],
+      by simp [SigSame, CoseSignature.protected_, CoseSignature.signature, cborBstr_of_orig p' b h4, h1]⟩
     have e1 : Header.fromValue (3 * d + 2) d x = .ok u' := by
       rw [(fuel_independent d).1 (3 * d + 2) x (by omega)]; exact g2
     exact (signature_ok_iff (3 * d + 2) d _ (.mk p' u' sg)).mpr ⟨.bytes b, x, rfl, h2, e1⟩
@@ -105,17 +134,17 @@ theorem sig_rt (d : Nat) (hH : HdrRT d) (hP : PhRT d) : SigRT d := by
 /-- a list of well-formed signatures encodes element-wise and decodes to an equivalent list. -/
 theorem sigs_rt (d : Nat) (hS : SigRT d) : ∀ ss, sigsWF d ss →
     ∃ vs ss', sigsToValues ss = .ok vs ∧ mapRes (Sd d) vs = .ok ss' ∧ eraseSigs ss' = eraseSigs ss ∧ vs.length = ss.length ∧ ss'.length = ss.length ∧
-      ∀ x ∈ vs, ∃ b tl, x = .array (.bytes b :: tl) := by
+      (∀ x ∈ vs, ∃ b tl, x = .array (.bytes b :: tl)) ∧ sigsSame ss' ss := by
   intro ss
   induction ss with
-  | nil => intro _; exact ⟨[], [], rfl, rfl, rfl, rfl, rfl, by simp⟩
+  | nil => intro _; exact ⟨[], [], rfl, rfl, rfl, rfl, rfl, by simp, trivial⟩
   | cons s ss ih =>
     intro hw
     simp only [sigsWF] at hw
-    obtain ⟨vs, ss', h1, h2, h3, h4, h5, h6⟩ := ih hw.2
-    obtain ⟨b, tl, s', g1, g2, g3⟩ := hS s hw.1
+    obtain ⟨vs, ss', h1, h2, h3, h4, h5, h6, h7⟩ := ih hw.2
+    obtain ⟨b, tl, s', g1, g2, g3, g4⟩ := hS s hw.1
     refine ⟨.array (.bytes b :: tl) :: vs, s' :: ss', by simp [sigsToValues, g1, h1], by simp [mapRes, g2, h2], by simp [eraseSigs, g3, h3],
-      by simp [h4], by simp [h5], ?_⟩
+      by simp [h4], by simp [h5], ?_, ⟨g4, h7⟩⟩
     intro y hy
     rcases List.mem_cons.mp hy with rfl | hy'
     · exact ⟨b, tl, rfl⟩
@@ -138,7 +167,7 @@ theorem hdr_rt (d : Nat) (hS : d ≠ 0 → SigRT (d - 1)) : HdrRT d := by
         have hsf : CoseSignature.fromValue (3 * d) (d - 1) = Sd (d - 1) := by
           have : 3 * d = 3 * (d - 1) + 3 := by omega
           simp only [Sd, this]
-        obtain ⟨vs, ss', h1, h2, h3, h4, h5, h6⟩ := sigs_rt (d - 1) (hS hd0) (s0 :: ss0) hcs
+        obtain ⟨vs, ss', h1, h2, h3, h4, h5, h6, _⟩ := sigs_rt (d - 1) (hS hd0) (s0 :: ss0) hcs
         rw [hsf]
         match ss0, vs, ss', h1, h2, h3, h4, h5, h6 with
         | [], [x], [s'], h1, h2, h3, _, _, h6 =>
